@@ -236,6 +236,11 @@ def cmp(op, a, b):
     if a[0] == "const" and b[0] == "const" and op in ("Eq", "NotEq", "Is", "IsNot") and (a[1] is None or b[1] is None or type(a[1]) is type(b[1])):
         same = a[1] == b[1] and (a[1] is None) == (b[1] is None)
         return TRUE if same == (op in ("Eq", "Is")) else FALSE
+    if op in ("Eq", "NotEq", "Is", "IsNot"):
+        # a freshly built tuple / named tuple / list / dict is never None
+        for x, y in ((a, b), (b, a)):
+            if x == NONE and y[0] in ("nt", "tuple", "list", "dict", "new"):
+                return FALSE if op in ("Eq", "Is") else TRUE
     if op in ("In", "NotIn") and a[0] == "const" and b[0] in ("tuple", "list") and all(x[0] == "const" for x in b[1]):
         # membership of a constant in a literal collection of constants
         try:
@@ -869,6 +874,8 @@ class Evaluator:
                     return base[2][fields.index(n.attr)]
             if base[0] == "ite":
                 return mk_ite(base[1], self._attr(base[2], n.attr, env), self._attr(base[3], n.attr, env))
+            if n.attr.isupper():
+                return self._attr(base, n.attr, env)        # class-level constants of locally created project objects
             return lv
         if isinstance(n, ast.BinOp):
             return self._binop(n.op, self._e(n.left, env, pc, res), self._e(n.right, env, pc, res))
@@ -1112,6 +1119,16 @@ class Evaluator:
             fields = self.namedtuples.get(base[1])
             if fields and name in fields:
                 return base[2][fields.index(name)]
+        # a class-level constant read through an instance the function created itself: `Table().LIMIT`
+        obj = base[2] if base[0] == "new" else base
+        if obj[0] == "call" and obj[1][0] == "sym" and self.project is not None and name.isupper():
+            for q, (cnode, cmod) in self.project.classes.items():
+                if q.rsplit(".", 1)[-1] == obj[1][1]:
+                    for m in cnode.body:
+                        if isinstance(m, ast.Assign) and len(m.targets) == 1 and isinstance(m.targets[0], ast.Name) and m.targets[0].id == name \
+                                and isinstance(m.value, ast.Constant) and isinstance(m.value.value, (int, float, str)) and not isinstance(m.value.value, bool):
+                            v = m.value.value
+                            return num(v) if isinstance(v, (int, float)) else ("const", v)
         return ("attr", base, name)
 
     def _binop(self, op, a, b):
